@@ -786,6 +786,24 @@ pub fn exec<'a>(who: Who, k: u32, op: &'a Op, me: SelfRef<'a>) -> BoxFut<'a, Flo
                 })
                 .await;
             }
+            Op::Race(subs) => {
+                let mut futs: Vec<BoxFut<'_, Flow>> = subs.iter().enumerate().map(|(i, o)| exec(who, 1000 * (k + 1) + i as u32, o, me)).collect();
+                std::future::poll_fn(|cx| {
+                    for f in futs.iter_mut() {
+                        if f.as_mut().poll(cx).is_ready() {
+                            return Poll::Ready(());
+                        }
+                    }
+                    if futs.is_empty() {
+                        Poll::Ready(())
+                    } else {
+                        Poll::Pending
+                    }
+                })
+                .await;
+                // the losers are dropped here, wherever they happen to be
+                drop(futs);
+            }
             Op::Fork { id, ops } => {
                 let ops = ops.clone();
                 let tag = match who {
